@@ -347,3 +347,13 @@ fn c17_header_from_parts_rules() {
         assert!(u8::from(h.tag()) == tagv);
     }
 }
+
+/// the length query used when a packet is re-serialised: Some(len) for fixed and partial, None only for indeterminate
+#[kani::proof]
+#[kani::unwind(4)]
+fn c17_maybe_len() {
+    let v: u32 = kani::any();
+    assert!(PacketLength::Fixed(v).maybe_len() == Some(v));
+    assert!(PacketLength::Partial(v).maybe_len() == Some(v), "C17: a partial length must report its value (re-serialisation treats None as indeterminate)");
+    assert!(PacketLength::Indeterminate.maybe_len().is_none());
+}
